@@ -287,12 +287,19 @@ fn expr(p: &mut Parser) -> CompletedMarker {
 
 		if p.at(T![local]) {
 			p.bump();
+			let mut binds = 0;
 			loop {
 				if p.at(T![;]) {
+					if binds == 0 {
+						// `local ;` - at least one bind is required
+						let m = p.start();
+						m.complete_missing(p, ExpectedSyntax::Named("local bind"));
+					}
 					p.bump();
 					break;
 				}
 				bind(p);
+				binds += 1;
 
 				if p.at(T![,]) {
 					p.bump();
